@@ -176,6 +176,19 @@ class Builder:
                 edits.append(Edit(a0, sp.body_open + mt.end(), mt.group(1) + 'let ', 'R11'))
                 self.rewrites.append(dict(rule='R11', file=s.name, line=s.line(a0), fn=key, old='const', new='let',
                                           desc='fn-local const -> let'))
+        # R3: `x: &mut impl CryptoRngCore` -> named generic (Verus cannot mention `impl Trait` parameters in specs)
+        sig_end0 = sp.body_open if sp.body_open >= 0 else sp.end - 1
+        mt = re.search(r'&mut impl CryptoRngCore', m[sp.start:sig_end0])
+        if mt and not (c is not None and c.sig is not None):
+            a0 = sp.start + mt.start()
+            edits.append(Edit(a0, sp.start + mt.end(), '&mut VpG', 'R3'))
+            mn = re.search(r'\bfn\s+[A-Za-z_0-9]+', m[sp.start:sig_end0])
+            pos = sp.start + mn.end()
+            if m[pos] == '<':
+                edits.append(Edit(pos + 1, pos + 1, 'VpG: CryptoRngCore, ', 'R3'))
+            else:
+                edits.append(Edit(pos, pos, '<VpG: CryptoRngCore>', 'R3'))
+            self.rewrites.append(dict(rule='R3', file=s.name, line=s.line(a0), fn=key, old='&mut impl CryptoRngCore', new='<VpG: CryptoRngCore> ... &mut VpG'))
         if c is None:
             return edits
         self.used.add(key)
@@ -272,6 +285,10 @@ class Builder:
 
         def alive(pos):
             return not any(x <= pos < y for x, y in dead)
+        rewritten = [(e.start, e.end) for e in edits if e.end > e.start and e.rule.startswith(('R4', 'explicit'))]
+
+        def alive_cl(pos):
+            return not any(x <= pos < y for x, y in rewritten)
         # --- loops
         loops = [l for l in rs.find_loops(m, lo, hi) if alive(l[0])]
         for n, lines in c.loops.items():
@@ -281,7 +298,7 @@ class Builder:
             kw, bo, bc = loops[n - 1]
             ins(bo, lines)
         # --- closures
-        cls = [c_ for c_ in rs.find_closures(m, lo, hi) if alive(c_[0])]
+        cls = [c_ for c_ in rs.find_closures(m, lo, hi) if alive_cl(c_[0])]
         for n, (header, lines) in c.closures.items():
             if n > len(cls):
                 self.problems.append('%s: closure %d not found (%d closures)' % (key, n, len(cls)))
